@@ -23,28 +23,32 @@ def run(ctx):
     acts = ["NotifyFirst", "NotifyNew", "NotifyStale", "NotifyErr", "NotifyRetry", "NotifyReorg"]
     r = ctx.tlc(SPEC, "RelayDedup", cfg="MC_Dedup", coverage=True, label="MC_Dedup")
     ctx.require_coverage(r, acts, "MC_Dedup")
-    r = ctx.tlc(SPEC, "RelayConfirm", cfg="MC_Confirm", coverage=True, label="MC_Confirm")
-    ctx.require_coverage(r, ["QueryErr", "QueryEqual", "QueryGreater", "QueryLess", "GiveUp"], "MC_Confirm")
+    cacts = ["QueryErr", "QueryEqual", "QueryGreater", "QueryLess", "GiveUp"]
+    if ctx.thorough:   # quick: the generation run below checks the same invariants for maxRetries 1..3
+        r = ctx.tlc(SPEC, "RelayConfirm", cfg="MC_Confirm", coverage=True, label="MC_Confirm")
+        ctx.require_coverage(r, cacts, "MC_Confirm")
     # behaviours -> real Deduplicator
     gen_cfg = ctx.pick("Gen_Dedup3", "Gen_Dedup4")
     g = ctx.tlc(SPEC, "Gen_RelayDedup", cfg=gen_cfg, workers=1, label=gen_cfg, dump_trace=False, timeout=1500)
     beh = ctx.read_emitted(g, "behaviours.ndjson")
     if len(beh) < 1000:
         ctx.broken("behaviour generation produced only %d behaviours" % len(beh))
-    gc = ctx.tlc(SPEC, "Gen_RelayConfirm", cfg=ctx.pick("Gen_Confirm3", "Gen_Confirm4"), workers=1, label="Gen_Confirm", dump_trace=False)
+    gc = ctx.tlc(SPEC, "Gen_RelayConfirm", cfg=ctx.pick("Gen_Confirm3", "Gen_Confirm4"), workers=1, label="Gen_Confirm", dump_trace=False,
+                 coverage=True)
+    ctx.require_coverage(gc, cacts, "Gen_Confirm")
     cases = ctx.read_emitted(gc, "confirm.ndjson")
     if len(cases) < 40:
         ctx.broken("confirm case generation produced only %d cases" % len(cases))
     ctx.note("dedup behaviours: %d, confirm cases: %d" % (len(beh), len(cases)))
     go = ctx.gotest("pkg/beacon/event", "^TestVerif_C06_(Replay|Concurrent)$", ["c06_test.go"],
                     inputs={"behaviours.ndjson": beh}, label="dedup",
-                    env={"VERIF_RUNS": ctx.pick(60, 400), "VERIF_WORKERS": 8, "VERIF_CALLS": 3})
+                    env={"VERIF_RUNS": ctx.pick(32, 200), "VERIF_WORKERS": 8, "VERIF_CALLS": ctx.pick(2, 3)})
     ctx.absorb(go)
     if set(go.reports) != {"replay", "concurrent"}:
         ctx.broken("dedup harness reports missing: %s" % sorted(go.reports))
     # linearizability of the concurrent runs
     tp = ctx.trace_path(go, "trace_dedup")
-    ok, tr = ctx.validate_trace(SPEC, "Trace_RelayDedup", tp, cfg="Trace_Dedup", label="Trace_Dedup", timeout=1500)
+    ok, tr = ctx.validate_trace(SPEC, "Trace_RelayDedup", tp, cfg="Trace_Dedup", label="Trace_Dedup", timeout=3000, heap="4g")
     nruns = sum(1 for line in open(tp) if '"Reset"' in line)
     if ok:
         ctx.traces_validated += nruns
@@ -69,7 +73,7 @@ def run(ctx):
         level="model_checking",
         rule="every sequence of 3 (quick) / 4 (thorough) notifications over start blocks 0..3 and previous entries {aa,bb}, with "
              "every chain answer (each (entry, block) pair, previous-entry error, start-block error) wherever the chain is consulted; "
-             "non-trivial = behaviours in which the chain is consulted. Concurrent: 60/400 runs of 8 goroutines x 3 calls "
+             "non-trivial = behaviours in which the chain is consulted. Concurrent: 32/200 runs of 8 goroutines x 2/3 calls released together by a barrier "
              "(duplicates of one request, small alphabets, increasing blocks; chain answering ok/errors) validated as linearizable. "
              "Confirmation loop: every sequence of chain answers (error, 0, lower, equal, higher) up to maxRetries 3/4.",
         assumptions=["Call/Return recording order is a valid real-time order (events are written under one mutex)",
